@@ -275,8 +275,77 @@ def enum_helpers(seed):
             "image snapshot after every request against the reference placement model; dohard inode sharing; 400 random dosym -r path pairs", "cases": cases, "failures": fails}
 
 
+def t_dosym_run(ex):
+    """Dosym.run(args): what dosym rejects and what it hands on.  A link name ending in '/' is rejected; a link name that is a directory (and no
+    symbolic link) IN THE IMAGE is rejected -- the only paths whose kind is asked lie under ED; -r is rejected before EAPI 8 and with a source
+    that is not absolute; otherwise the request goes on to _Symlink.run exactly once, with the link name unchanged and the source unchanged
+    (without -r) or made relative by get_relative_dosym_target(source, link name) (with -r).  For every source and link-name string."""
+    import types
+    import z3
+    from pyvc.api import call, Interp
+    from pyvc.models import Model
+    from pyvc.sym import KStr, KBool, SBool, SStr, SObj, And, Or, Not
+    from pyvc import theory
+    import pkgcore.ebuild.ebd_ipc as I
+    P = "C33.Dosym.run"
+    source, target = KStr.fresh("source"), KStr.fresh("link_name")
+    relative, allowed = bool(ex.choose(2)), bool(ex.choose(2))
+    ex.inputs.update({"source": source, "link_name": target, "-r": relative, "EAPI allows -r": allowed})
+    ED = "/var/tmp/portage/image/"
+    ISDIR, ISLINK = theory.ufun("is_dir", z3.StringSort(), z3.BoolSort()), theory.ufun("is_link", z3.StringSort(), z3.BoolSort())
+    REL = theory.ufun("relative_dosym_target", z3.StringSort(), z3.StringSort(), z3.StringSort())
+    S_ = lambda v: v.t if isinstance(v, SStr) else z3.StringVal(v)
+    asked, handed = [], []
+
+    def m_kind(fn):
+        def f(it_, p_):
+            asked.append(p_)
+            return SBool(fn(S_(p_)))
+        return f
+    args = SObj(types.SimpleNamespace, {"source": source, "target": target})
+    me = SObj(I.Dosym, {"op": types.SimpleNamespace(ED=ED), "opts": types.SimpleNamespace(relative=relative), "dosym_relative": allowed, "eapi": "the-eapi"})
+
+    def m_super_run(it_, self_, a):
+        handed.append((a.fields["source"], a.fields["target"]))
+        return None
+    it = Interp(ex, label=P, models={
+        I.os.path.isdir: Model(m_kind(ISDIR), "os.path.isdir"), I.os.path.islink: Model(m_kind(ISLINK), "os.path.islink"),
+        I.os.path.isabs: Model(lambda it_, p_: SBool(z3.PrefixOf(z3.StringVal("/"), S_(p_))), "os.path.isabs", pure=True),
+        I.pjoin: Model(lambda it_, a, b: SStr(z3.Concat(S_(a), S_(b))) if isinstance(a, str) and a.endswith("/") else (_ for _ in ()).throw(AssertionError("pjoin model: first part must end in /")), "pjoin", pure=True),
+        I.get_relative_dosym_target: Model(lambda it_, s_, t_: SStr(REL(S_(s_), S_(t_))), "get_relative_dosym_target", pure=True),
+        I._Symlink.run: Model(m_super_run, "_Symlink.run"),
+    })
+    out = call(it, it.target(IPC, "Dosym.run"), me, args)
+    under_ed = all(ex.must(SBool(z3.PrefixOf(z3.StringVal(ED), S_(p_)))) for p_ in asked)
+    ex.oblige(f"{P}.ensures.only_paths_under_the_image_are_asked_for_their_kind", under_ed, kind="frame")
+    trailing = z3.SuffixOf(z3.StringVal("/"), target.t)
+    if out.raised:
+        ex.cover("rejects")
+        ex.oblige(f"{P}.raises.the_command_error_only", out.exc.cls is I.IpcCommandError, kind="exceptional-postcondition")
+        ex.oblige(f"{P}.raises.nothing_was_handed_on", handed == [], kind="exceptional-postcondition")
+        reasons = [SBool(trailing)]
+        if asked:
+            reasons.append(And(SBool(ISDIR(S_(asked[0]))), Not(SBool(ISLINK(S_(asked[0]))))))
+        if relative:
+            reasons.append(not allowed)
+            reasons.append(Not(SBool(z3.PrefixOf(z3.StringVal("/"), source.t))))
+        ex.oblige(f"{P}.raises.only_for_a_trailing_slash_an_image_directory_or_a_forbidden_-r", Or(*reasons), kind="exceptional-postcondition")
+        return
+    ex.cover("hands on")
+    ex.oblige(f"{P}.ensures.handed_on_exactly_once", len(handed) == 1)
+    ex.oblige(f"{P}.ensures.no_trailing_slash", Not(SBool(trailing)))
+    ex.oblige(f"{P}.ensures.the_image_was_asked_and_holds_no_directory_there", len(asked) >= 1 and Or(Not(SBool(ISDIR(S_(asked[0])))), SBool(ISLINK(S_(asked[0])))))
+    if relative:
+        ex.oblige(f"{P}.ensures.-r_only_where_the_EAPI_allows_it_and_the_source_is_absolute", And(allowed, SBool(z3.PrefixOf(z3.StringVal("/"), source.t))))
+    if len(handed) == 1:
+        src_, tgt_ = handed[0]
+        ex.oblige(f"{P}.ensures.the_link_name_goes_on_unchanged", SBool(S_(tgt_) == target.t))
+        ex.oblige(f"{P}.ensures.the_source_goes_on_unchanged_or_made_relative_to_the_link_name", SBool(S_(src_) == (REL(source.t, target.t) if relative else source.t)))
+
+
 def tasks():
-    return [Task("C33.install_helpers", None, [(IPC, "_InstallWrapper._install"), (IPC, "Doins._install_targets"), (IPC, "Doman._install_targets"), (IPC, "Dosym.run"), (IPC, "_Symlink.run"), (MISC, "get_relative_dosym_target")], enumerate=enum_helpers)]
+    return [Task("C33.install_helpers", None, [(IPC, "_InstallWrapper._install"), (IPC, "Doins._install_targets"), (IPC, "Doman._install_targets"), (IPC, "Dosym.run"), (IPC, "_Symlink.run"), (MISC, "get_relative_dosym_target")], enumerate=enum_helpers),
+            Task("C33.Dosym.run", t_dosym_run, [(IPC, "Dosym.run")])]
 
 
 REPLAY = {}
